@@ -68,6 +68,8 @@ def _worker(task):
         out["solver_calls"] = res.solver_calls
         out["covered"] = sorted(res.covered)
         out["truncated"] = res.truncated
+        if res.error:
+            out["error"] = res.error
     except Exception:
         out["error"] = traceback.format_exc()
     out["wall"] = time.time() - t0
@@ -371,12 +373,14 @@ def main(argv=None):
             "trusted_base": entry.get("trusted_base", []),
             "samples": samples or [{"obligation": n, "result": ob[n]["status"]} for n in sorted(ob)[:4]],
             "functions_under_contract": sorted(set(x for x in functions if x)),
-            "items": len(results), "paths": n_paths, "vc_instances": sum(d["instances"] for d in ob.values()),
+            "items": len(results), "slowest_items_s": sorted([(round(r.get("wall", 0), 1), r["item"]) for r in results], reverse=True)[:5],
+            "paths": n_paths, "vc_instances": sum(d["instances"] for d in ob.values()),
             "by_backend": by_backend, "solver_time_s": round(solver_time, 2),
             "vacuity_checks": vacuity,
             "undecided": undecided, "faults": faults, "violated_obligations": violations,
             "known_findings": [f.get("id") for f in kf],
             "differential": differential,
+            "assumption_scan": assumption_scan(entry, args.prop),
             "bounded_standins": entry.get("bounded_standins", []),
             "bounded_standin_runs": [{"name": r.get("name"), "bound": r.get("bound"), "evaluations": r.get("evaluations"),
                                       "failures": len(r.get("failures") or [])} for r in standin_results],
@@ -405,6 +409,53 @@ def main(argv=None):
     for line in vio_lines:
         print(line)
     return code
+
+
+def assumption_scan(entry, prop):
+    """mechanical scan of the contracts used by a property (DESIGN 2.8): inlined callees, callees
+    replaced by reference functions, abstraction functions (assume-post), oracle havoc, opaque
+    functions, non-replayable contracts, loop invariants, bounded case splits"""
+    import ast
+    import inspect
+    inl, refs, absf, nonrep, loops, splits = set(), set(), set(), [], [], []
+    uf = set()
+    for modname in entry["modules"]:
+        mod = importlib.import_module(modname)
+        src = inspect.getsource(mod)
+        tree = ast.parse(src)
+        fn_assumes = {}
+        for node in ast.walk(tree):
+            if isinstance(node, ast.FunctionDef):
+                for sub in ast.walk(node):
+                    if isinstance(sub, ast.Call) and isinstance(sub.func, ast.Name):
+                        if sub.func.id == "assume":
+                            fn_assumes[node.name] = fn_assumes.get(node.name, 0) + 1
+                        if sub.func.id == "uf_bytes":
+                            uf.add(modname + ":" + node.name)
+        for c in getattr(mod, "CONTRACTS", []):
+            if prop not in c.props:
+                continue
+            for callee, dec in c.policy.items():
+                if dec == "inline":
+                    inl.add(callee)
+                elif dec.startswith("ref:"):
+                    tgt = dec[4:].split("|")[0]
+                    refs.add("%s -> %s" % (callee, tgt))
+                    fn = tgt.split(":")[-1]
+                    if fn.startswith("abs_") or fn_assumes.get(fn):
+                        absf.add(tgt)
+            if not c.replayable:
+                nonrep.append(c.name)
+            for k in c.loops:
+                loops.append("%s loop %d" % k)
+    return {
+        "inlined_callees (verified as part of the caller, not by contract)": sorted(inl),
+        "callees_replaced_by_reference_function": sorted(refs),
+        "abstraction_functions (assert-pre / havoc / ASSUME-post)": sorted(absf),
+        "opaque_uninterpreted_functions": sorted(uf),
+        "contracts_without_native_replay": sorted(set(nonrep)),
+        "loops_by_invariant (termination argued, not mechanised)": sorted(set(loops)),
+    }
 
 
 def _z3_version():
